@@ -637,13 +637,16 @@ def nat_duplicate_aliasing(h):
         h.check(got[0] == 'ok' and got[1] == want, P + 'duplicate.py::saver', data, want, got[:2])
 
 
+from contracts import C10 as _K10   # noqa: E402  (ResourceMatcher: the contract every selector-taking step is checked against)
+
 ITEMS = [
+    _K10._mk_matcher_item(),
     Item('concatenate.concatenator', sym_concatenator, [], P + 'concatenate.py::concatenator'),
     Item('concatenate.func', sym_concatenate_func, [], P + 'concatenate.py::concatenate.func'),
     Item('duplicate.func', sym_duplicate_func, [], P + 'duplicate.py::duplicate.func'),
     Item('iterable_loader.naming', BA.sym_iterable_loader_naming, [], 'dataflows/helpers/iterable_loader.py::iterable_loader.process_datapackage'),
     Item('delete_resource.func', K10.sym_delete_resource, [], P + 'delete_resource.py::delete_resource.func'),
     Item('appenders', sym_appenders, [], 'dataflows/helpers/iterable_loader.py::iterable_loader.process_resources'),
-    Item('pipelines', None, [('conservation', nat_restructure), ('concatenate-in-place', nat_concatenate_in_place), ('concatenate-projection', nat_concatenate_projection), ('load-reuse', nat_load_reuse), ('duplicate-aliasing', nat_duplicate_aliasing)], None),
+    Item('pipelines', None, [('whole-resource-steps', K10.nat_whole_resource_steps), ('conservation', nat_restructure), ('concatenate-in-place', nat_concatenate_in_place), ('concatenate-projection', nat_concatenate_projection), ('load-reuse', nat_load_reuse), ('duplicate-aliasing', nat_duplicate_aliasing)], None),
     Item('recorded-findings', None, [('bounded', KF.nat_findings_c16)], 'dataflows/processors/sources.py::sources.process_datapackage'),
 ]
